@@ -153,8 +153,8 @@ Definition date_parse (s : bytes) : outcome (option rawdate) :=
   | _ =>
     if Nat.eqb (length s) 8 then
       let d := le_u64 s in
-      let one_digit_month := (N.land d 71777214277812224 =? 12947992890769408)%N in
-      let e := N.lor (N.land d 18388015645756620799) 13511005043687424 in
+      let one_digit_month := (N.land d 71777214277877760 =? 12948046497185792)%N in
+      let e := N.lor (N.land d 18388477864472215551) 13511005040541696 in
       match (if one_digit_month then date_fast_parse_u64 e else None) with
       | Some x => x
       | None => date_fallback s
